@@ -22,6 +22,7 @@ EXPLANATION = (
     "others untouched, values inside, generator protocol (try/finally and contextlib.ExitStack callbacks are both modelled); the "
     "context-parameter <-> Settings attribute table (derived by a probe run), no early-bound read of a setting (default arguments, class "
     "bodies, module level), no write to the settings singleton outside Settings"
+    "; every context is also entered from the state in which settings are still None; if the settings class validates assignments, the k-th assignment is refused while the context is entered"
 )
 ASSUMPTIONS = [
     "contextlib.contextmanager semantics: an exception in the with-body is thrown in at the yield; generators are LIFO",
